@@ -17,6 +17,10 @@ type c04Exec struct {
 	Ctx   int         `json:"ctx"` // index into the context pool
 	Entry int         `json:"entry"`
 	Plan  []FaultSpec `json:"plan,omitempty"`
+	// NilCtx: execute with a nil Context. SetGlob: before this execution the caller assigns
+	// set.Globals["glob"] (Globals are part of what a template renders from).
+	NilCtx  bool   `json:"nil_context,omitempty"`
+	SetGlob string `json:"set_global,omitempty"`
 }
 
 type c04Spec struct {
@@ -66,6 +70,12 @@ func c04Gen(tp *Tapes) *c04Spec {
 		if e.Entry == EpExecuteBlocks && len(sp.Prog.Blocks) == 0 {
 			e.Entry = EpExecute
 		}
+		if g.Draw(6) == 5 {
+			e.NilCtx = true
+		}
+		if g.Draw(6) == 5 {
+			e.SetGlob = fmt.Sprintf("G%d<&>", i)
+		}
 		if f.Draw(3) == 2 {
 			switch f.Draw(4) {
 			case 0, 1:
@@ -112,6 +122,9 @@ func c04Compile(sp *c04Spec, disk *DiskSpec) (*c04Side, string) {
 func (s *c04Side) exec(sp *c04Spec, i int, e c04Exec, ctx pongo2.Context) *ExecResult {
 	old := SetCurWorld(s.w)
 	defer SetCurWorld(old)
+	if e.NilCtx {
+		ctx = nil
+	}
 	s.w.Plan = e.Plan
 	s.w.active = map[int]int{}
 	s.w.OpBegin(i)
@@ -174,7 +187,12 @@ func (c04Checker) Run(tp *Tapes, opt RunOpt) *Outcome {
 		anyFailed, failedBefore := false, false
 		seenCtx := map[int]bool{}
 		nontrivial := false
+		curGlob := ""
 		for i, e := range hist {
+			if e.SetGlob != "" {
+				curGlob = e.SetGlob
+				sys.set.Globals["glob"] = curGlob
+			}
 			got := sys.exec(sp, i, e, sys.pool[e.Ctx])
 			out.dig(got.String())
 			out.Execs++
@@ -184,9 +202,13 @@ func (c04Checker) Run(tp *Tapes, opt RunOpt) *Outcome {
 				out.HarnessErr = "reference compile failed although the system compile succeeded: " + rerr
 				return false
 			}
+			if curGlob != "" {
+				ref.set.Globals["glob"] = curGlob
+			}
 			want := ref.exec(sp, i, e, ref.w.BuildCtx(sp.Pool[e.Ctx]))
 			ref.w.Fired = map[string]int{}
 			hh.u64(uint64(e.Ctx)<<8 | uint64(e.Entry))
+			hh.str(fmt.Sprintf("%v|%s", e.NilCtx, e.SetGlob))
 			for _, f := range e.Plan {
 				hh.u64(uint64(f.Site)<<40 | uint64(f.Fault)<<32 | uint64(f.Occ))
 			}
